@@ -158,4 +158,4 @@ pub fn budget() -> usize {
         .unwrap_or(DEFAULT_BUDGET)
 }
 
-pub const DEFAULT_BUDGET: usize = 3 << 30;
+pub const DEFAULT_BUDGET: usize = 4 << 30;
